@@ -148,6 +148,34 @@ tt(3)
         'a/two.bare': "i = 0\nwhile i < mm:\n    tt(20 + i)\n    i = i + 1\nendwhile\ninclude 'b/three.bare'\n",
         'a/b/three.bare': "tt(30)\nreturn\ntt(31)\n",
     }, True),
+    'adjacent_includes': ('''\
+tt(1)
+include 'a/two.bare'
+include 'a/one.bare'
+include 'a/two.bare'
+tt(2)
+''', {
+        'a/one.bare': "tt(10)\ninclude 'two.bare'\ntt(11)\n",
+        'a/two.bare': "i = 0\nwhile i < mm:\n    tt(20 + i)\n    i = i + 1\nendwhile\ntt(29)\n",
+    }, True),
+    'partial_under_copy': ('''\
+function work(aa, bb):
+    j = 0
+    while j < bb:
+        j = j + 1
+    endwhile
+    tt(aa + j)
+    return j
+endfunction
+include 'mk.bare'
+tt(1)
+r1 = pp(mm)
+r2 = pp(1)
+dd = arrayNew(objectNew('x', 1))
+dataCalculatedField(dd, 'y', 'qq(x)', objectNew('qq', systemPartial(work, 7)))
+r3 = pp(2)
+tt(2)
+''', {'mk.bare': "pp = systemPartial(work, 5)\ntt(50)\n"}, True),
     'include_in_function': ('''\
 function ld():
     include 'lib.bare'
